@@ -12,11 +12,12 @@ pub enum St {
     #[default]
     S0,
     S1,
-    S2,
-    S3,
+    /// a data-carrying variant (the `State` derive supports payloads that are themselves enumerable):
+    /// `P(false)` and `P(true)` are two different states although they share a discriminant
+    P(bool),
     S4,
 }
-pub const STATES: [St; NSTATE] = [St::S0, St::S1, St::S2, St::S3, St::S4];
+pub const STATES: [St; NSTATE] = [St::S0, St::S1, St::P(false), St::P(true), St::S4];
 pub fn st_index(s: &St) -> usize {
     STATES.iter().position(|x| x == s).unwrap()
 }
